@@ -69,9 +69,14 @@ def comb_to_si(chans):
     from gnpy.core.utils import dbm2watt
     import numpy as np
     p = [float(dbm2watt(c['p_dbm'])) for c in chans]
+    # one comb in three is handed over with integer-typed frequency / baud rate / slot width arrays: what a spectrum built
+    # from JSON integers (191300000000000 rather than 191.3e12) looks like; derived from the comb itself (no own randomness)
+    ints = (int(chans[0]['f'] // MHZ) + len(chans)) % 3 == 0 and \
+        all(float(c[k]).is_integer() for c in chans for k in ('f', 'baud', 'slot'))
+    kind = np.int64 if ints else float
     return create_arbitrary_spectral_information(
-        frequency=np.array([c['f'] for c in chans]), pch=np.array(p),
-        baud_rate=np.array([c['baud'] for c in chans]), slot_width=np.array([c['slot'] for c in chans]),
+        frequency=np.array([c['f'] for c in chans], dtype=kind), pch=np.array(p),
+        baud_rate=np.array([c['baud'] for c in chans], dtype=kind), slot_width=np.array([c['slot'] for c in chans], dtype=kind),
         roll_off=np.array([c['roll'] for c in chans]), tx_osnr=np.array([c['tx_osnr'] for c in chans]),
         tx_power=np.array(p), delta_pdb_per_channel=np.array([c['dp'] for c in chans]),
         label=np.array([c['label'] for c in chans]))
@@ -81,6 +86,10 @@ def comb_to_carriers(chans):
     """dict frequency -> Carrier as used by PathRequest.initial_spectrum (insertion order = presented order)."""
     from gnpy.core.info import Carrier
     from gnpy.core.utils import dbm2watt
-    return {c['f']: Carrier(delta_pdb=c['dp'], baud_rate=c['baud'], slot_width=c['slot'], roll_off=c['roll'],
-                            tx_osnr=c['tx_osnr'], tx_power=float(dbm2watt(c['p_dbm'])), label=c['label'])
+    # one carrier list in three is written with integers (see comb_to_si)
+    ints = bool(chans) and (int(chans[0]['f'] // MHZ) + len(chans)) % 3 == 0 and \
+        all(float(c[k]).is_integer() for c in chans for k in ('f', 'baud', 'slot'))
+    num = int if ints else float
+    return {num(c['f']): Carrier(delta_pdb=c['dp'], baud_rate=num(c['baud']), slot_width=num(c['slot']), roll_off=c['roll'],
+                                 tx_osnr=c['tx_osnr'], tx_power=float(dbm2watt(c['p_dbm'])), label=c['label'])
             for c in chans}
